@@ -275,7 +275,7 @@ func reinstallsFacts(w *World, fn *ssa.Function, after ssa.Instruction) string {
 			// trail append of the same literal in the same iteration
 			trailed := false
 			for _, ts := range storesToField(g, "solver.Solver", "trail") {
-				if c, ok := ts.Val.(*ssa.Call); ok && appendedElem(c) == lit && ts.Block() == st.Block() {
+				if c, ok := ts.Val.(*ssa.Call); ok && appendedElem(c) == lit && (ts.Block() == st.Block() || sameIteration(g, ts, st)) {
 					trailed = true
 				}
 			}
@@ -610,7 +610,7 @@ func ruleR10_1_3(w *World, r *Report) {
 	}
 	// refuted: Unsat stores made because a literal of the parameter is already false when it is to be installed (it
 	// contradicts a unit clause of the problem or an earlier literal of the same list): the round is over.
-	var refuted []*ssa.Store
+	var refuted []ssa.Instruction
 	unsatK, _ := w.statusConst("Unsat")
 	// helperRefutes: every `return false` of the helper is under an already-false test of an element of a literal list
 	helperRefutes := func(g *ssa.Function) bool {
@@ -719,9 +719,29 @@ func ruleR10_1_3(w *World, r *Report) {
 		var bad []string
 		indet, _ := w.statusConst("Indet")
 		unsat, _ := w.statusConst("Unsat")
-		var reset *ssa.Store
+		var reset ssa.Instruction
+		// the places where the status is set: stores in the function, and calls of a local function literal that
+		// stores a constant into it (`fail := func() Status { s.status = Unsat; return s.status }`)
+		type statusSet struct {
+			at  ssa.Instruction
+			val ssa.Value
+		}
+		var sets []statusSet
 		for _, st := range storesToField(fn, "solver.Solver", "status") {
-			v, ok := constInt(st.Val)
+			sets = append(sets, statusSet{st, st.Val})
+		}
+		for _, ci := range callsIn(fn) {
+			cl := closureOfCall(fn, ci)
+			if cl == nil {
+				continue
+			}
+			for _, st := range storesToField(cl, "solver.Solver", "status") {
+				sets = append(sets, statusSet{ci, st.Val})
+			}
+		}
+		for _, ss := range sets {
+			st := ss.at
+			v, ok := constInt(ss.val)
 			switch {
 			case ok && v == indet:
 				reset = st
@@ -991,4 +1011,28 @@ func ruleR10_6(w *World, r *Report) {
 			r.OK("R10.6", key, w.Pos(root.Pos()), fmt.Sprintf("%d function(s), %d level test(s), none against a constant level", len(fns), nTests))
 		}
 	}
+}
+
+// closureOfCall: the function literal of fn that call ci calls (the literal is bound to a local variable of fn).
+func closureOfCall(fn *ssa.Function, ci ssa.CallInstruction) *ssa.Function {
+	v := ci.Common().Value
+	if ld, ok := v.(*ssa.UnOp); ok && ld.Op == token.MUL {
+		// a captured / spilled local holding the literal
+		if al, ok := ld.X.(*ssa.Alloc); ok {
+			for _, ref := range *al.Referrers() {
+				if st, ok := ref.(*ssa.Store); ok && st.Addr == ssa.Value(al) {
+					v = st.Val
+				}
+			}
+		}
+	}
+	mc, ok := v.(*ssa.MakeClosure)
+	if !ok {
+		return nil
+	}
+	f, _ := mc.Fn.(*ssa.Function)
+	if f == nil || f.Parent() != fn {
+		return nil
+	}
+	return f
 }
